@@ -11,9 +11,9 @@ places where the CODE is not written row by row.  Each such place is modelled as
 to a row-wise map.  A row-wise map is then equivariant under batch permutations and insensitive to the other rows.
 
 **Limits** (external audit): theorems here cover the boolean-mask gather / scatter, the image parameter layout and the executed
-coupling / autoregressive / CDF passes.  Not covered by a theorem (correspondence and row-vs-batch oracle only): distributions and
-flows (`log_prob` of a batch vs rows), the linear family, 1×1 convolution, normalisation layers in evaluation mode, conditioner
-networks themselves (their row-wise behaviour is the hypothesis `hp`, compared numerically).  Row independence of the executed
+coupling / autoregressive / CDF passes.  Distributions and flows (`log_prob` of a batch vs rows), the linear family, the 1×1 convolution and
+the normalisation layers in evaluation mode are in `Properties/C12R.lean`.  Not covered by a theorem (correspondence and
+row-vs-batch oracle only): conditioner networks themselves (their row-wise behaviour is the hypothesis `hp`, compared numerically).  Row independence of the executed
 passes is stated for the `out` / `ld` arrays; a batch in which ONE row is out of domain is rejected as a whole by the code
 (`err`), and `Properties/C12E.lean` relates the two: the batch run has `err = none` iff every row run alone has.  `rowwise_*` are facts about `List.map`.
 -/
